@@ -16,6 +16,10 @@ def densitySupported (totalSat : Rat) : Bool := (decide (totalSat > (0 : Rat)))
 
 def densityValue (totalSat cost : Rat) : Rat := (totalSat / cost)
 
+def stillFitsLoop (selected : Nat) (newCost budget : Rat) : (List Nat) → List (Nat × Rat) → (List Nat)
+  | kept, [] => kept
+  | kept, x :: xs => (if ((x.1 != selected) && (decide ((newCost + x.2) ≤ budget))) then (stillFitsLoop selected newCost budget ((kept ++ [x.1])) xs) else (stillFitsLoop selected newCost budget kept xs))
+
 def passLoop : (List Nat) → Rat → List (Nat × Rat) → ((List Nat) × Rat)
   | sel, remaining, [] => (sel, remaining)
   | sel, remaining, x :: xs => (if (decide (x.2 ≤ remaining)) then (passLoop ((sel ++ [x.1])) ((remaining - x.2)) xs) else (passLoop sel remaining xs))
